@@ -48,7 +48,9 @@ ScalarMutations == {"zero", "one", "max", "max-1", "plus1", "minus1", "flip-high
 WideLens == {"max", "max-1", "wrap", "wrap+len", "wrap-1", "2^63", "2^32", "2^31"}
 OptionMutations == {"set-some", "set-none"} \cup {"set-some-wide:" \o x : x \in WideLens}
 BlobMutations   == {"shorten", "lengthen", "append-zero", "prefix+1", "prefix-1", "prefix-max", "empty", "flip-first-bit", "flip-last-bit",
-                    "zero-first-chunk", "swap-chunks", "dup-last-chunk", "drop-first-chunk"}
+                    "zero-first-chunk", "swap-chunks", "dup-last-chunk", "drop-first-chunk",
+                    \* maximal bytes: the content as it is long, and contents of one to four 8-byte words (whole elements of every field)
+                    "fill-ff", "resize-ff:8", "resize-ff:16", "resize-ff:24", "resize-ff:32"}
 
 \* a vint64 length prefix whose first byte is 0 announces an eight-byte length (the following bytes): a huge vector
 \* a 64-bit scalar (the proof-of-work nonce) shifted by a field modulus or a limb boundary: a value that a hasher reducing the
